@@ -532,6 +532,43 @@ func (c *FC) instrs(calls []*ssa.Call) []ssa.Instruction {
 	return out
 }
 
+// sres is one success-capable exit of fn with the result terms it returns there.
+type sres struct {
+	ret  *ssa.Return
+	vals []*Term
+	at   ssa.Instruction
+}
+
+// successResults lists the exits that may report success, a phi-merged return split by
+// predecessor (each with the values that predecessor contributes).
+func (c *FC) successResults() []sres {
+	var out []sres
+	for _, ret := range allReturns(c.fn) {
+		if mes := c.p.mergedExits(c.x, ret); mes != nil {
+			for _, me := range mes {
+				if me.kind == "error" {
+					continue
+				}
+				sr := sres{ret: ret, at: me.at}
+				for _, v := range me.vals {
+					sr.vals = append(sr.vals, c.x.Of(v, me.pred.Instrs[len(me.pred.Instrs)-1]))
+				}
+				out = append(out, sr)
+			}
+			continue
+		}
+		if c.p.exitKind(c.x, ret) == "error" {
+			continue
+		}
+		sr := sres{ret: ret, at: ret}
+		for _, v := range ret.Results {
+			sr.vals = append(sr.vals, c.x.Of(v, ret))
+		}
+		out = append(out, sr)
+	}
+	return out
+}
+
 // successReturns lists the returns that may report success.
 func (c *FC) successReturns() []ssa.Instruction {
 	_, s := c.p.returnsOf(c.fn)
